@@ -5,16 +5,28 @@ package zygo
 // C15 — macro templates expand by exact substitution.
 
 type vC15Gen struct {
-	env *Zlisp
+	env      *Zlisp
+	deepUsed bool
+	nested   bool
 }
 
 func (g *vC15Gen) elem(d int) Sexp {
 	e := g.env
 	n := 12
-	if d > 0 {
+	if d > 0 && !g.deepUsed {
+		// thorough tier: one element of the top sequence may itself be a
+		// sequence (every choice of which one); all of them nested exceeds
+		// the path cap
 		n = 14
 	}
-	switch vChoice("elem", n) {
+	var k int
+	if g.nested {
+		// inside the nested sequence: the kinds that take part in substitution
+		k = []int{0, 1, 2, 3, 4, 10, 11}[vChoice("nestedelem", 7)]
+	} else {
+		k = vChoice("elem", n)
+	}
+	switch k {
 	case 5: // literal atoms of every other kind stay as written
 		return SexpNull
 	case 6:
@@ -29,10 +41,12 @@ func (g *vC15Gen) elem(d int) Sexp {
 		return vL(vS(e, "syntaxQuote"), vL(vS(e, "b"), vL(vS(e, "unquote"), vS(e, "v"))))
 	case 11:
 		return vL(vS(e, "syntaxQuote"), vA(e, vL(vS(e, "unquote-splicing"), vS(e, "l")), vSmallInt("lit")))
-	case 12:
-		return g.seq(d-1, false)
-	case 13:
-		return g.seq(d-1, true)
+	case 12, 13:
+		g.deepUsed = true
+		g.nested = true
+		x := g.seq(d-1, k == 13)
+		g.nested = false
+		return x
 	case 0:
 		return vSmallInt("lit")
 	case 1:
@@ -48,6 +62,9 @@ func (g *vC15Gen) elem(d int) Sexp {
 
 func (g *vC15Gen) seq(d int, array bool) Sexp {
 	n := 1 + vChoice("seqlen", 3)
+	if g.nested {
+		vAssume(n <= 2)
+	}
 	xs := make([]Sexp, n)
 	for i := range xs {
 		xs[i] = g.elem(d)
